@@ -234,6 +234,12 @@ def run(tier, seed):
     rep.cov['rule'] = ('one trace per (learning configuration, scripted sequence of 3-5 evaluate / test calls with inside / mixed / outside / labelled-only batches) followed by '
                        'evaluate(); distinct by (configuration, script)')
     rep.assumptions += ['TLC/SANY', 'range membership decided in exact rational arithmetic from the requested data and the learned data range', 'densities from get_density_estimation_results(); relative ties below 1e-9 share a rank']
+    # extension beyond the listed properties: graph phase of Clustering (spec/Clustering.tla, ClusteringTrace.tla), drift reports only
+    try:
+        from harness.drivers import clustering_extra
+        clustering_extra.run(rep, tier, seed)
+    except Exception as ex:      # the extension never decides the listed property
+        rep.exclude('extension Clustering.tla not evaluated: %r' % (ex,))
     return rep.finish()
 
 
